@@ -188,7 +188,7 @@ func runC11(c *Ctx) {
 								continue
 							}
 							nRet++
-							okRet = okRet && hb.Of(e.Results[0], e.Instr).String() == zt && mustPass(h, e.Instr.Block(), exits)
+							okRet = okRet && hb.Of(e.Results[0], e.Instr).String() == zt && exitMustPass(h, e, exits)
 						}
 						// the returned counter only ever grows by one between tests
 						incH := false
@@ -265,7 +265,7 @@ func runC11(c *Ctx) {
 	pan := plainEdges(edgesMatching(sb, "bin<>>(p3, 243)"))
 	for _, e := range ana.Exits(search) {
 		if e.Panic {
-			r.Check(mustPass(search, e.Instr.Block(), pan), "C11.lane-test.target-range", c.ipos(e.Instr), "the search routine panics only for more than 243 required zeros")
+			r.Check(exitMustPass(search, e, pan), "C11.lane-test.target-range", c.ipos(e.Instr), "the search routine panics only for more than 243 required zeros")
 			continue
 		}
 		et := sb.Of(e.Results[1], e.Instr)
@@ -273,7 +273,7 @@ func runC11(c *Ctx) {
 			vt := sb.Of(e.Results[0], e.Instr)
 			_, ok := ana.Match("bin<+>(ind<+"+WS+">(p2), conv<uint64>(call<*>(_, _, p3)))", vt)
 			hit := plainEdges(edgesMatching(sb, "bin<<>(call<*>(_, _, p3), "+WS+")"))
-			r.Check(ok && mustPass(search, e.Instr.Block(), hit), "C11.nonce-layout.returned-nonce", c.ipos(e.Instr), "returned nonce = batch base (start + 64·k) + lane index, only when the lane test found a lane < W: %s", short(vt.String(), 160))
+			r.Check(ok && exitMustPass(search, e, hit), "C11.nonce-layout.returned-nonce", c.ipos(e.Instr), "returned nonce = batch base (start + 64·k) + lane index, only when the lane test found a lane < W: %s", short(vt.String(), 160))
 		}
 	}
 	// lane i gets nonce base+i at the digest offset; CopyState after Absorb of exactly 243 trits
